@@ -57,6 +57,7 @@ struct WSink : CallbackSink
 		if(! S->state[eid].compare_exchange_strong(expect, 2, std::memory_order_relaxed)) { violation("dispatch:event-dispatched-twice-or-never-enqueued", "event " + num(eid) + " state " + num(expect)); return; }
 		S->dispatched.fetch_add(1, std::memory_order_relaxed);
 		S->batch[tls().tid % MAXTHREADS].push_back((int)eid);
+		perturb("listener.body");
 	}
 };
 
@@ -68,6 +69,7 @@ struct Scenario
 	int steps[3];        // per enqueuer number of steps
 	uint32_t plan[3][12]; // per step: low 2 bits = DisableQueueNotify nesting depth (0..3), next 3 bits = events (1..4 -> +1), next bits = pause
 	bool drainAll;
+	bool enqueuerProcesses;
 };
 
 // homogeneous queue: has DisableQueueNotify
@@ -164,6 +166,8 @@ struct Runner
 				const int pauseUs = (int)((p >> 4) % 1500);
 				scopes(tid, depth, nEvents, nextEid, depth ? pauseUs : 0);
 				if((p >> 16) & 1) std::this_thread::sleep_for(std::chrono::microseconds((p >> 17) % 800));
+				// a processing call made by a thread that is NOT a waiter: an enqueue that happens meanwhile must still wake a waiter
+				if(sc.enqueuerProcesses && ((p >> 28) & 3) == 0) { std::vector<int> & b = S->batch[tid % MAXTHREADS]; b.clear(); q.process(); const uint64_t t = tick(); for(size_t i = 0; i < b.size(); ++i) S->doneLate[b[i]].store(t, std::memory_order_relaxed); }
 			}
 		}
 		catch(const SelfDeadlock &) { violation("deadlock:self-relock", "enqueuer re-locked a mutex it owns"); }
@@ -173,7 +177,7 @@ struct Runner
 
 static void pickWindow(Rng & rng)
 {
-	static const char * kTags[] = { "cv.pred-false", "cv.pred-false", "q.dqn.after-dec", "q.dqn.after-dec", "atomic.rmw.post", "atomic.rmw.pre", "atomic.load.post", "atomic.load.pre",
+	static const char * kTags[] = { "cv.pred-false", "cv.pred-false", "q.dqn.after-dec", "q.dqn.after-dec", "listener.body", "listener.body", "atomic.rmw.post", "atomic.rmw.pre", "atomic.load.post", "atomic.load.pre",
 		"lock.pre", "lock.post", "unlock.post", "cv.notify.pre", "q.queueList.cs", "racy-read.end" };
 	Sched & s = sched();
 	s.seed = rng.next();
@@ -206,6 +210,8 @@ static void runScenario(uint64_t caseNo, Rng & rng, const char * cfgName)
 	for(int w = 0; w < 4; ++w) { sc.waitKind[w] = timedScenario ? 2 : (int)rng.below(2); sc.shortMs[w] = 2 + (int)rng.below(12); }
 	for(int e = 0; e < 3; ++e) { sc.steps[e] = 1 + (int)rng.below(8); for(int s = 0; s < 12; ++s) { sc.plan[e][s] = (uint32_t)rng.next(); if(rng.chance(1, 3)) sc.plan[e][s] &= ~3u; } }
 	sc.drainAll = true;
+	sc.enqueuerProcesses = rng.chance(1, 3);
+	if(sc.enqueuerProcesses) sc.enqueuers = 2;
 	pickWindow(rng);
 	// template aimed at the window of the statement: a waiter re-enters wait() (after draining a plain enqueue) while the
 	// enqueuer is inside a DisableQueueNotify scope that is its LAST notifying action; the waiter is delayed between its
@@ -234,7 +240,7 @@ static void runScenario(uint64_t caseNo, Rng & rng, const char * cfgName)
 
 	std::string desc = std::string("config ") + cfgName + ": waiters=" + num(sc.waiters) + " (";
 	for(int w = 0; w < sc.waiters; ++w) desc += std::string(w ? "," : "") + (sc.waitKind[w] == 0 ? "wait" : sc.waitKind[w] == 1 ? "waitFor(long)" : "waitFor(" + num(sc.shortMs[w]) + "ms)");
-	desc += ") enqueuers=" + num(sc.enqueuers) + " sched.mode=" + num(sd.mode.load()) + " tag=" + (sd.mode.load() == 2 ? tags().name[sd.tag.load()] : "-") + " role=" + num(sd.role.load())
+	desc += ") enqueuers=" + num(sc.enqueuers) + (sc.enqueuerProcesses ? " (enqueuers also call process())" : "") + " sched.mode=" + num(sd.mode.load()) + " tag=" + (sd.mode.load() == 2 ? tags().name[sd.tag.load()] : "-") + " role=" + num(sd.role.load())
 		+ " nth=" + num(sd.nth.load()) + " delayUs=" + num(sd.delayUs.load());
 	oplog(desc);
 	for(int e = 0; e < sc.enqueuers; ++e) {
